@@ -15,29 +15,64 @@ variable {S E P X : Type} (C : Comps ℝ S E P) (V : EnvOps ℝ X)
     constant" -/
 def EnvOps.Static (V : EnvOps ℝ X) : Prop := ∀ e x, V.step e x = e
 
+/-- nothing in the environment moves, on the environments satisfying `IX` (e.g. no clock is ticking and
+    there is no modulator) -/
+def EnvOps.StaticOn (IX : X → Prop) (V : EnvOps ℝ X) : Prop := ∀ e x, IX e → V.step e x = e
+
+theorem EnvOps.Static.on (hV : V.Static) : V.StaticOn (fun _ => True) := fun e x _ => hV e x
+
 /-- the renderer invariant of C11: clean scratch buffers, every parameter settled -/
 def Renderer.Quiet (r : Renderer ℝ S E P X) : Prop := r.Clean ∧ Mixer.Settled r.mixer
 
-theorem Renderer.specChunk_static (hV : V.Static) (r : Renderer ℝ S E P X) (n ch : Nat) :
+/-- the invariant-relative renderer invariant of C11: quiet, every processed sound / effect satisfies
+    its component invariant, the environment satisfies `IX`, and the renderer has the internal buffer
+    size (at most `B`) and the `dt` the component invariants were stated for -/
+structure Renderer.QuietOn (IS : S → Prop) (IE : E → Prop) (IX : X → Prop) (B : Nat) (dt : ℝ)
+    (r : Renderer ℝ S E P X) : Prop where
+  quiet : r.Quiet
+  comps : Mixer.CompsOk IS IE r.mixer
+  env : IX r.env
+  ibs : r.ibs ≤ B
+  dt : r.dt = dt
+
+theorem Renderer.Quiet.on (r : Renderer ℝ S E P X) (hq : r.Quiet) :
+    Renderer.QuietOn (fun _ => True) (fun _ => True) (fun _ => True) r.ibs r.dt r :=
+  ⟨hq, Mixer.compsOk_true _, trivial, Nat.le_refl _, rfl⟩
+
+variable {IS : S → Prop} {IE : E → Prop} {IX : X → Prop} {B : Nat} {dt : ℝ}
+
+theorem Renderer.specChunk_static_on (hV : V.StaticOn IX) (r : Renderer ℝ S E P X) (hx : IX r.env) (n ch : Nat) :
     r.specChunk C V n ch
       = ({ r with mixer := (Mixer.spec C r.mixer n r.dt (V.info r.env)).1 },
          ((Mixer.spec C r.mixer n r.dt (V.info r.env)).2.map (frameToChannels ch)).flatten) := by
   unfold Renderer.specChunk
-  simp only [hV r.env]
+  simp only [hV r.env _ hx]
 
-theorem Renderer.specChunk_quiet (hC : C.LenPres) (hH : ∀ dt, C.ChunkHom dt) (hV : V.Static)
-    (r : Renderer ℝ S E P X) (hq : r.Quiet) (n ch : Nat) (hn : n ≤ r.ibs) :
-    (r.specChunk C V n ch).1.Quiet ∧ (r.specChunk C V n ch).1.ibs = r.ibs := by
-  refine ⟨⟨(Renderer.processChunk_spec C V hC r hq.1 n ch hn).2, ?_⟩, rfl⟩
-  rw [Renderer.specChunk_static C V hV]
-  exact (Mixer.spec_hom C hC r.dt (hH r.dt) (V.info r.env) r.ibs r.mixer hq.1.2 hq.2 n 0 (by omega)).2
+theorem Renderer.specChunk_static (hV : V.Static) (r : Renderer ℝ S E P X) (n ch : Nat) :
+    r.specChunk C V n ch
+      = ({ r with mixer := (Mixer.spec C r.mixer n r.dt (V.info r.env)).1 },
+         ((Mixer.spec C r.mixer n r.dt (V.info r.env)).2.map (frameToChannels ch)).flatten) :=
+  Renderer.specChunk_static_on C V (EnvOps.Static.on V hV) r trivial n ch
+
+theorem Renderer.specChunk_quiet_on (hC : C.LenPres) (hH : C.ChunkHomOn IS IE B dt) (hV : V.StaticOn IX)
+    (r : Renderer ℝ S E P X) (hq : r.QuietOn IS IE IX B dt) (n ch : Nat) (hn : n ≤ r.ibs) :
+    (r.specChunk C V n ch).1.QuietOn IS IE IX B dt ∧ (r.specChunk C V n ch).1.ibs = r.ibs := by
+  have hclean := (Renderer.processChunk_spec C V hC r hq.quiet.1 n ch hn).2
+  rw [Renderer.specChunk_static_on C V hV r hq.env] at hclean ⊢
+  obtain ⟨_, h2, h3⟩ := Mixer.spec_hom_on C hC r.dt (hq.dt ▸ hH) (V.info r.env) r.ibs hq.ibs r.mixer hq.quiet.1.2
+    hq.quiet.2 hq.comps n 0 (by omega)
+  exact ⟨⟨⟨hclean, h2⟩, h3, hq.env, hq.ibs, hq.dt⟩, rfl⟩
 
 /-- one chunk of `a + b` frames = a chunk of `a` frames followed by a chunk of `b` frames -/
-theorem Renderer.specChunks_split (hC : C.LenPres) (hH : ∀ dt, C.ChunkHom dt) (hV : V.Static)
-    (r : Renderer ℝ S E P X) (hq : r.Quiet) (ch a b : Nat) (hab : a + b ≤ r.ibs) (ns : List Nat) :
+theorem Renderer.specChunks_split_on (hC : C.LenPres) (hH : C.ChunkHomOn IS IE B dt) (hV : V.StaticOn IX)
+    (r : Renderer ℝ S E P X) (hq : r.QuietOn IS IE IX B dt) (ch a b : Nat) (hab : a + b ≤ r.ibs) (ns : List Nat) :
     Renderer.specChunks C V ch r ((a + b) :: ns) = Renderer.specChunks C V ch r (a :: b :: ns) := by
-  obtain ⟨h1, _⟩ := Mixer.spec_hom C hC r.dt (hH r.dt) (V.info r.env) r.ibs r.mixer hq.1.2 hq.2 a b hab
-  simp only [Renderer.specChunks, Renderer.specChunk_static C V hV]
+  obtain ⟨h1, _⟩ := Mixer.spec_hom_on C hC r.dt (hq.dt ▸ hH) (V.info r.env) r.ibs hq.ibs r.mixer hq.quiet.1.2
+    hq.quiet.2 hq.comps a b hab
+  have hqa := (Renderer.specChunk_quiet_on C V hC hH hV r hq a ch (by omega)).1
+  simp only [Renderer.specChunks]
+  rw [Renderer.specChunk_static_on C V hV _ hqa.env]
+  simp only [Renderer.specChunk_static_on C V hV r hq.env]
   rw [h1]
   simp [List.append_assoc]
 
@@ -47,21 +82,22 @@ theorem Renderer.specChunks_cons (ch : Nat) (r : Renderer ℝ S E P X) (n : Nat)
          (r.specChunk C V n ch).2 ++ (Renderer.specChunks C V ch (r.specChunk C V n ch).1 ns).2) := rfl
 
 /-- every list of chunk lengths (each between 1 and `ibs`) renders like single-frame chunks -/
-theorem Renderer.specChunks_ones (hC : C.LenPres) (hH : ∀ dt, C.ChunkHom dt) (hV : V.Static) (ch : Nat)
-    (ns : List Nat) : ∀ (r : Renderer ℝ S E P X), r.Quiet → (∀ n ∈ ns, 1 ≤ n ∧ n ≤ r.ibs) →
+theorem Renderer.specChunks_ones_on (hC : C.LenPres) (hH : C.ChunkHomOn IS IE B dt) (hV : V.StaticOn IX) (ch : Nat)
+    (ns : List Nat) : ∀ (r : Renderer ℝ S E P X), r.QuietOn IS IE IX B dt → (∀ n ∈ ns, 1 ≤ n ∧ n ≤ r.ibs) →
       Renderer.specChunks C V ch r ns = Renderer.specChunks C V ch r (List.replicate ns.sum 1) := by
   induction ns with
   | nil => intro r _ _; simp [Renderer.specChunks]
   | cons n ns ih =>
     -- inner induction on the length of the first chunk
-    have key : ∀ (k : Nat) (r : Renderer ℝ S E P X), r.Quiet → 1 ≤ k → k ≤ r.ibs → (∀ n ∈ ns, 1 ≤ n ∧ n ≤ r.ibs) →
+    have key : ∀ (k : Nat) (r : Renderer ℝ S E P X), r.QuietOn IS IE IX B dt → 1 ≤ k → k ≤ r.ibs →
+        (∀ n ∈ ns, 1 ≤ n ∧ n ≤ r.ibs) →
         Renderer.specChunks C V ch r (k :: ns) = Renderer.specChunks C V ch r (List.replicate (k + ns.sum) 1) := by
       intro k
       induction k with
       | zero => intro r _ h; omega
       | succ j ihj =>
         intro r hq _ hk hns
-        have hq1 := Renderer.specChunk_quiet C V hC hH hV r hq 1 ch (by omega)
+        have hq1 := Renderer.specChunk_quiet_on C V hC hH hV r hq 1 ch (by omega)
         have hrep : List.replicate (j + 1 + ns.sum) 1 = 1 :: List.replicate (j + ns.sum) 1 := by
           rw [show j + 1 + ns.sum = (j + ns.sum) + 1 by omega, List.replicate_succ]
         by_cases hj : j = 0
@@ -69,13 +105,43 @@ theorem Renderer.specChunks_ones (hC : C.LenPres) (hH : ∀ dt, C.ChunkHom dt) (
           rw [hrep]
           simp only [Renderer.specChunks, Nat.zero_add]
           rw [ih (r.specChunk C V 1 ch).1 hq1.1 (fun n hn => by rw [hq1.2]; exact hns n hn)]
-        · rw [hrep, show j + 1 = 1 + j by omega, Renderer.specChunks_split C V hC hH hV r hq ch 1 j (by omega) ns]
+        · rw [hrep, show j + 1 = 1 + j by omega, Renderer.specChunks_split_on C V hC hH hV r hq ch 1 j (by omega) ns]
           have := ihj (r.specChunk C V 1 ch).1 hq1.1 (by omega) (by rw [hq1.2]; omega)
             (fun n hn => by rw [hq1.2]; exact hns n hn)
           rw [Renderer.specChunks_cons C V ch r 1 (j :: ns), Renderer.specChunks_cons C V ch r 1 (List.replicate _ 1), this]
     intro r hq hns
     rw [List.sum_cons]
     exact key n r hq (hns n (by simp)).1 (hns n (by simp)).2 (fun m hm => hns m (by simp [hm]))
+
+/-- **partition invariance of the chunk loop**: two lists of chunk lengths with the same total -/
+theorem Renderer.specChunks_partition_on (hC : C.LenPres) (hH : C.ChunkHomOn IS IE B dt) (hV : V.StaticOn IX) (ch : Nat)
+    (r : Renderer ℝ S E P X) (hq : r.QuietOn IS IE IX B dt) (ns1 ns2 : List Nat) (h1 : ∀ n ∈ ns1, 1 ≤ n ∧ n ≤ r.ibs)
+    (h2 : ∀ n ∈ ns2, 1 ≤ n ∧ n ≤ r.ibs) (hsum : ns1.sum = ns2.sum) :
+    Renderer.specChunks C V ch r ns1 = Renderer.specChunks C V ch r ns2 := by
+  rw [Renderer.specChunks_ones_on C V hC hH hV ch ns1 r hq h1, Renderer.specChunks_ones_on C V hC hH hV ch ns2 r hq h2, hsum]
+
+/-! the unconditional versions: the special case of trivial invariants -/
+
+theorem Renderer.specChunk_quiet (hC : C.LenPres) (hH : ∀ dt, C.ChunkHom dt) (hV : V.Static)
+    (r : Renderer ℝ S E P X) (hq : r.Quiet) (n ch : Nat) (hn : n ≤ r.ibs) :
+    (r.specChunk C V n ch).1.Quiet ∧ (r.specChunk C V n ch).1.ibs = r.ibs := by
+  obtain ⟨h1, h2⟩ := Renderer.specChunk_quiet_on C V hC (Comps.ChunkHom.on C (hH r.dt) r.ibs) (EnvOps.Static.on V hV) r
+    (Renderer.Quiet.on r hq) n ch hn
+  exact ⟨h1.quiet, h2⟩
+
+/-- one chunk of `a + b` frames = a chunk of `a` frames followed by a chunk of `b` frames -/
+theorem Renderer.specChunks_split (hC : C.LenPres) (hH : ∀ dt, C.ChunkHom dt) (hV : V.Static)
+    (r : Renderer ℝ S E P X) (hq : r.Quiet) (ch a b : Nat) (hab : a + b ≤ r.ibs) (ns : List Nat) :
+    Renderer.specChunks C V ch r ((a + b) :: ns) = Renderer.specChunks C V ch r (a :: b :: ns) :=
+  Renderer.specChunks_split_on C V hC (Comps.ChunkHom.on C (hH r.dt) r.ibs) (EnvOps.Static.on V hV) r
+    (Renderer.Quiet.on r hq) ch a b hab ns
+
+/-- every list of chunk lengths (each between 1 and `ibs`) renders like single-frame chunks -/
+theorem Renderer.specChunks_ones (hC : C.LenPres) (hH : ∀ dt, C.ChunkHom dt) (hV : V.Static) (ch : Nat)
+    (ns : List Nat) (r : Renderer ℝ S E P X) (hq : r.Quiet) (hns : ∀ n ∈ ns, 1 ≤ n ∧ n ≤ r.ibs) :
+      Renderer.specChunks C V ch r ns = Renderer.specChunks C V ch r (List.replicate ns.sum 1) :=
+  Renderer.specChunks_ones_on C V hC (Comps.ChunkHom.on C (hH r.dt) r.ibs) (EnvOps.Static.on V hV) ch ns r
+    (Renderer.Quiet.on r hq) hns
 
 /-- **partition invariance of the chunk loop**: two lists of chunk lengths with the same total -/
 theorem Renderer.specChunks_partition (hC : C.LenPres) (hH : ∀ dt, C.ChunkHom dt) (hV : V.Static) (ch : Nat)
@@ -106,31 +172,53 @@ theorem Renderer.specChunks_append (ch : Nat) (r : Renderer ℝ S E P X) (ns ms 
   | nil => simp [Renderer.specChunks]
   | cons n ns ih => simp [Renderer.specChunks, ih, List.append_assoc]
 
-theorem Renderer.specChunks_quiet (hC : C.LenPres) (hH : ∀ dt, C.ChunkHom dt) (hV : V.Static) (ch : Nat)
-    (ns : List Nat) : ∀ (r : Renderer ℝ S E P X), r.Quiet → (∀ n ∈ ns, n ≤ r.ibs) →
-      (Renderer.specChunks C V ch r ns).1.Quiet ∧ (Renderer.specChunks C V ch r ns).1.ibs = r.ibs := by
+theorem Renderer.specChunks_ibs (ch : Nat) (ns : List Nat) :
+    ∀ (r : Renderer ℝ S E P X), (Renderer.specChunks C V ch r ns).1.ibs = r.ibs := by
   induction ns with
-  | nil => intro r hq _; exact ⟨hq, rfl⟩
+  | nil => intro r; rfl
+  | cons n ns ih => intro r; simp only [Renderer.specChunks]; rw [ih]; rfl
+
+theorem Renderer.specChunks_quiet_on (hC : C.LenPres) (hH : C.ChunkHomOn IS IE B dt) (hV : V.StaticOn IX) (ch : Nat)
+    (ns : List Nat) : ∀ (r : Renderer ℝ S E P X), r.QuietOn IS IE IX B dt → (∀ n ∈ ns, n ≤ r.ibs) →
+      (Renderer.specChunks C V ch r ns).1.QuietOn IS IE IX B dt := by
+  induction ns with
+  | nil => intro r hq _; exact hq
   | cons n ns ih =>
     intro r hq hns
-    obtain ⟨q1, e1⟩ := Renderer.specChunk_quiet C V hC hH hV r hq n ch (hns n (by simp))
-    obtain ⟨q2, e2⟩ := ih (r.specChunk C V n ch).1 q1 (fun m hm => by rw [e1]; exact hns m (by simp [hm]))
-    exact ⟨q2, by rw [← e1, ← e2]; rfl⟩
+    obtain ⟨q1, e1⟩ := Renderer.specChunk_quiet_on C V hC hH hV r hq n ch (hns n (by simp))
+    exact ih (r.specChunk C V n ch).1 q1 (fun m hm => by rw [e1]; exact hns m (by simp [hm]))
+
+theorem Renderer.specChunks_quiet (hC : C.LenPres) (hH : ∀ dt, C.ChunkHom dt) (hV : V.Static) (ch : Nat)
+    (ns : List Nat) (r : Renderer ℝ S E P X) (hq : r.Quiet) (hns : ∀ n ∈ ns, n ≤ r.ibs) :
+      (Renderer.specChunks C V ch r ns).1.Quiet ∧ (Renderer.specChunks C V ch r ns).1.ibs = r.ibs :=
+  ⟨(Renderer.specChunks_quiet_on C V hC (Comps.ChunkHom.on C (hH r.dt) r.ibs) (EnvOps.Static.on V hV) ch ns r
+    (Renderer.Quiet.on r hq) hns).quiet, Renderer.specChunks_ibs C V ch ns r⟩
+
+/-- a sequence of callbacks is the chunk loop over the concatenated chunk lengths (clean scratch buffers
+    are all this needs) -/
+theorem Renderer.runCallbacks_spec_clean (hC : C.LenPres) (ch : Nat)
+    (cbs : List Nat) : ∀ (r : Renderer ℝ S E P X), r.Clean →
+      Renderer.runCallbacks C V ch r cbs = Renderer.specChunks C V ch r (callbackChunks r.ibs cbs)
+        ∧ (Renderer.specChunks C V ch r (callbackChunks r.ibs cbs)).1.Clean := by
+  induction cbs with
+  | nil => intro r hr; simp [Renderer.runCallbacks, callbackChunks, Renderer.specChunks, hr]
+  | cons f fs ih =>
+    intro r hr
+    have hb := chunkSizes_bound f r.ibs f
+    obtain ⟨h1, h2⟩ := Renderer.runChunks_spec C V hC ch r hr _ (fun n hn => (hb n hn).1)
+    have e := Renderer.specChunks_ibs C V ch (chunkSizes f r.ibs f) r
+    obtain ⟨i1, i2⟩ := ih _ h2
+    simp only [Renderer.runCallbacks, callbackChunks, List.flatMap_cons]
+    rw [Renderer.processLoop_eq, h1, Renderer.specChunks_append, i1, e]
+    refine ⟨rfl, ?_⟩
+    rw [e] at i2
+    exact i2
 
 /-- a sequence of callbacks is the chunk loop over the concatenated chunk lengths -/
 theorem Renderer.runCallbacks_spec (hC : C.LenPres) (hH : ∀ dt, C.ChunkHom dt) (hV : V.Static) (ch : Nat)
-    (cbs : List Nat) : ∀ (r : Renderer ℝ S E P X), r.Quiet →
-      Renderer.runCallbacks C V ch r cbs = Renderer.specChunks C V ch r (callbackChunks r.ibs cbs) := by
-  induction cbs with
-  | nil => intro r _; simp [Renderer.runCallbacks, callbackChunks, Renderer.specChunks]
-  | cons f fs ih =>
-    intro r hq
-    have hb := chunkSizes_bound f r.ibs f
-    obtain ⟨h1, _⟩ := Renderer.runChunks_spec C V hC ch r hq.1 _ (fun n hn => (hb n hn).1)
-    obtain ⟨q, e⟩ := Renderer.specChunks_quiet C V hC hH hV ch _ r hq (fun n hn => (hb n hn).1)
-    simp only [Renderer.runCallbacks, callbackChunks, List.flatMap_cons]
-    rw [Renderer.processLoop_eq, h1, Renderer.specChunks_append, ih _ q, e]
-    rfl
+    (cbs : List Nat) (r : Renderer ℝ S E P X) (hq : r.Quiet) :
+      Renderer.runCallbacks C V ch r cbs = Renderer.specChunks C V ch r (callbackChunks r.ibs cbs) :=
+  (Renderer.runCallbacks_spec_clean C V hC ch cbs r hq.1).1
 
 theorem callbackChunks_sum (ibs : Nat) (hibs : 0 < ibs) (cbs : List Nat) : (callbackChunks ibs cbs).sum = cbs.sum := by
   induction cbs with
